@@ -4,12 +4,14 @@ open Scryer.Syntax Scryer.Quote
 
 /-- `needs_bracketing` is sound for the right operand / prefix operand: when it asks for no brackets, the
     child's priority is admissible in that argument position (ISO 6.3.4). -/
-theorem C15_bracketing_sound_right_partial (child d : OpDesc) (name : List Char)
-    (h : needsBracketing child (.left name d) = false) : child.prec ≤ (argMax d).2 ∨ ¬ (d.spec.isPrefix ∨ d.spec.isInfix) := by
-  unfold needsBracketing at h
+theorem C15_bracketing_sound_right (child d : OpDesc) (name : List Char)
+    (hd : d.spec.isPrefix = true ∨ d.spec.isInfix = true)
+    (h : needsBracketing child (.left name d) = false) : child.prec ≤ (argMax d).2 := by
+  simp only [needsBracketing] at h
   split at h
   · simp at h
-  · simp only [Bool.or_eq_false_iff, decide_eq_false_iff_not, Bool.and_eq_false_iff, beq_eq_false_iff_ne] at h
-    cases hs : d.spec <;> simp [argMax, hs, Spec.isPrefix, Spec.isInfix, Spec.strictRight] at h ⊢ <;> omega
+  · simp only [Bool.or_eq_false_iff, decide_eq_false_iff_not, Bool.and_eq_false_iff, beq_eq_false_iff_ne,
+      Nat.not_lt] at h
+    cases hs : d.spec <;> simp [argMax, hs, Spec.isPrefix, Spec.isInfix, Spec.strictRight] at h hd ⊢ <;> omega
 
 end Scryer.C15
